@@ -5,8 +5,12 @@ REG = dict(
     trusted_base=[
         "|cdf(ppf(q)) - q| <= 1e-5 is a THEOREM in exact real arithmetic for even c (all regimes except the point mass: "
         "cdf_ppf_even_all_regimes_partial: the even-c model cdf is the Gaussian mixture, monotone, k/(b-a)-Lipschitz, tails <= Phi(-6) "
-        "<= exp(-18)); for odd c in the series regime it stays a numerical fact (bisect_accuracy is conditional on monotonicity and "
-        "a Lipschitz constant of the piecewise-polynomial cdf) and under IEEE rounding it is measured on every run with the code's own cdf",
+        "<= exp(-18)); for odd c in the series regime the model's cdf is only 1.02*max_error-close to the (monotone, Lipschitz) Spec, and "
+        "the robust-bisection theorem gives |cdf(ppf q) - q| <= 2*1.02*max_error(entry) + (c/2)(1+12o/(b-a))/2^30 + Phi(-6) "
+        "(cdf_ppf_odd_shipped_table_partial; c = 1 with 0.4(12+(b-a)/o)/2^30 instead), which is <= 1e-5 - a THEOREM in exact real "
+        "arithmetic - exactly for c = 9 (all scales), c = 5 with o/(b-a) < 1/5 and c = 3 with o/(b-a) < 1/50 "
+        "(cdf_ppf_odd_tolerance_partial); for c = 1, c = 7 and the larger scales of c = 3, 5 the 1e-5 stays a numerical fact, and "
+        "under IEEE rounding it is measured on every run with the code's own cdf",
         "scipy.special.erfinv (normal regime) is a black box: the model inverts its own erf/erfc by bisection and is compared to "
         "1e-8*(b-a+12o); normal_ppf(0) = -inf, normal_ppf(1) = +inf are compared, not proved",
         "IEEE-754 rounding is not modelled: a bisection decision cdf(mid) < q may flip between libm's when |cdf(mid)-q| is inside "
@@ -24,13 +28,18 @@ TEXT = dict(
     level="Universal Lean theorems about the polymorphic Opda.Noisy.ppf the driver runs at Float: its bisection is literally "
           "Bisect.run, so the result is non-decreasing in q for an ARBITRARY cdf (no monotonicity of the float cdf assumed), also "
           "across the explicit -inf/+inf end values; bracket invariant a-6o <= lo <= result <= hi <= b+6o with width "
-          "(b-a+12o)/2^30; conditional accuracy for a monotone L-Lipschitz cdf and, UNCONDITIONALLY for even c over R (series, normal and "
+          "(b-a+12o)/2^30; conditional accuracy for a monotone L-Lipschitz cdf, and for a cdf that is only eps-close to a monotone "
+          "L-Lipschitz function (robust bisection: residual <= 2 eps + L*width + tail); UNCONDITIONALLY for even c over R (series, normal and "
           "noiseless regimes), |cdf(ppf q) - q| <= 1e-5 (the even-c model cdf is the Gaussian mixture: monotone, c/(2(b-a))-Lipschitz, "
-          "Chernoff tail bound Phi(-6) <= exp(-18) proved from the Gaussian mgf); the end-point decision table (point mass constant, "
+          "Chernoff tail bound Phi(-6) <= exp(-18) proved from the Gaussian mgf); for odd c over R with the shipped table (series regime) "
+          "|cdf(ppf q) - q| <= 2*1.02*max_error(selected entry) + (c/2)(1+12o/(b-a))/2^30 + Phi(-6), hence <= 1e-5 for c = 9 at every "
+          "scale, c = 5 at o/(b-a) < 1/5, c = 3 at o/(b-a) < 1/50 (the Spec is monotone, (c/2)/(b-a)-Lipschitz for c >= 2 and "
+          "0.4/o-Lipschitz for every c; kernel check of the regenerated table); the end-point decision table (point mass constant, "
           "-inf/+inf in the series regime, a/b and the closed form in the noiseless regime incl. o=0, mean+sd*Phi^-1 in the normal "
           "regime, the o==0 clip branch unreachable); over R the noiseless closed forms are exact inverses, cdf(ppf q) = q. Tied to the code on every run to 1e-8(b-a+12o), exact at q in {0,1}; the "
           "inverse clause, monotonicity and shapes are evaluated on the implementation every run.",
-    note="The 1e-5 inversion accuracy is a theorem for even c in exact arithmetic; for odd c (series regime) it is conditional on a "
-         "Lipschitz constant of the piecewise-polynomial cdf and is measured, not proved; IEEE rounding is measured; erfinv is a "
-         "compared black box; near-tie bisection decisions are skipped and counted.",
+    note="The 1e-5 inversion accuracy is a theorem in exact arithmetic for even c, and for odd c in the series regime for c = 9 (all "
+         "scales), c = 5 (o/(b-a) < 1/5), c = 3 (o/(b-a) < 1/50); for the other odd settings (c = 1, c = 7, larger scales of c = 3, 5) "
+         "the proved bound 2*1.02*max_error + ... exceeds 1e-5 (1.6e-5 for c = 7, up to 1.6e-3 for c = 1) and the 1e-5 is measured, not "
+         "proved; IEEE rounding is measured; erfinv is a compared black box; near-tie bisection decisions are skipped and counted.",
 )
